@@ -104,6 +104,31 @@ func genC08(e *emitter, tier string, seed uint64) {
 				e.note("alias.reencode-family")
 			}
 		}
+		// long operands (longer than the pre-Genesis element size: a handler may treat them on a separate path), already
+		// minimal, positive and negative, re-encoded / used as numbers while aliased by the caller's script, by a DUP
+		// twin and by the right half of the SPLIT that produced them
+		if era != 0 {
+			for _, ln := range []int{521, 600, 1000} {
+				for _, top := range []byte{0x05, 0x85, 0x7f, 0xff} {
+					x := r.bytes(ln)
+					x[ln-1] = top
+					if top == 0xff { // minimal needs a sign byte only when the byte below has its top bit set
+						x[ln-2] |= 0x80
+						x[ln-1] = 0x80
+					}
+					for _, opc := range [][]byte{append(rawPush(numBytes(ln+1)), 0x80), append(rawPush(numBytes(ln+100)), 0x80), append(rawPush(numBytes(ln)), 0x80),
+						{0x81}, {0x8b}, {0x8f}, {0x90}, {0x51, 0x93}} {
+						for _, dw := range dupWords[:3] {
+							ixExec(e, era, rawPush(x), append(append([]byte{}, dw.code...), opc...))
+						}
+						// <x ++ tail> len SPLIT SWAP <op>: the left half keeps the capacity of the whole item
+						whole := append(append([]byte{}, x...), r.bytes(120)...)
+						ixExec(e, era, rawPush(whole), append(append(append(rawPush(numBytes(ln)), 0x7f, 0x7c), opc...), 0x75))
+						e.note("alias.long-operand")
+					}
+				}
+			}
+		}
 		// a *computed* item (result of CAT / ADD / SPLIT / a hash: it may carry spare capacity) duplicated, and then BOTH
 		// copies transformed in turn — the first result must survive the second transformation
 		makers := [][]byte{
@@ -224,6 +249,14 @@ func genC19(e *emitter, tier string, seed uint64) {
 		{"51516b", "5187"}, {"51", "516b"}, {"51516b516b", "e"}, {"516b", "516b51"}} {
 		for _, fl := range []int{0, fAfterGenesis, fBip16} {
 			e.run("IX.dbg", fmt.Sprint(fl), pair[0], pair[1])
+		}
+	}
+	// conditionals whose ELSE has already run when a snapshot is taken, followed by a further ELSE (one ELSE per IF after
+	// Genesis): what the thread remembers about the first ELSE must not be reachable through the snapshot
+	for _, prog := range []string{"51635167676851", "5163516751676851", "006351675167516851", "5163516351676768685151", "516351670063676768", "51645167676851"} {
+		for _, era := range eras {
+			e.run("IX.dbg", fmt.Sprint(era), "e", prog)
+			e.run("IX.dbg", fmt.Sprint(era), "51", prog[2:])
 		}
 	}
 	for _, prog := range []string{"7601089876", "760101997687", "517f7c8b7c", "03010080768151", "0201027601087f7c8b"} {
